@@ -32,9 +32,15 @@ ASSUMPTIONS = [
 
 def _codes_global(g):
     """global code per row from the object's own state (chunk-local codes through its pointers)"""
+    import pyarrow as pa
+
     ik = g.group_ikey
-    if g.key_is_chunked:
+    if isinstance(ik, pa.ChunkedArray):
         chunks = [np.asarray(c.to_numpy(zero_copy_only=False)) for c in ik.chunks]
+        if not hasattr(g, "_group_key_pointers"):
+            # the per-chunk dictionaries were refactored away: chunk-local codes cannot be
+            # interpreted from outside any more - a harness binding problem, never a verdict
+            raise env.BindingBroken("GroupBy._group_key_pointers")
         ptrs = g._group_key_pointers
         out = []
         for j, c in enumerate(chunks):
@@ -205,6 +211,8 @@ class KeySpace(Subspace):
                     import io, contextlib
                     with contextlib.redirect_stdout(io.StringIO()):
                         codes, labels, ng, groups, kc, size, size_t = views()
+                except env.BindingBroken:
+                    raise
                 except Exception as e:  # noqa
                     res.fail("total", f"{tag}: raised {type(e).__name__}: {str(e)[:140]}")
                     continue
